@@ -36,6 +36,10 @@ type knownFinding struct {
 	What     string `json:"what"`
 	Status   string `json:"status"` // open | fixed
 	Commit   string `json:"commit,omitempty"`
+	// AlsoRevert lists later fix commits (newest first) that must be reverted together with Commit
+	// for the defect to be observable again (a later repair made the broken code unreachable, or
+	// touches the same lines).
+	AlsoRevert []string `json:"also_revert,omitempty"`
 }
 
 func verifDir() string {
@@ -467,6 +471,7 @@ func revertedFixTest(id string) []map[string]any {
 		scratchRoot = "/var/tmp"
 	}
 	byCommit := map[string][]string{}
+	also := map[string][]string{}
 	var commits []string
 	kfs, _ := loadKnown()
 	for _, k := range kfs {
@@ -477,6 +482,9 @@ func revertedFixTest(id string) []map[string]any {
 			commits = append(commits, k.Commit)
 		}
 		byCommit[k.Commit] = append(byCommit[k.Commit], k.Key)
+		if len(k.AlsoRevert) > 0 {
+			also[k.Commit] = k.AlsoRevert
+		}
 	}
 	for _, c := range commits {
 		rec := map[string]any{"commit": c, "expected_keys": byCommit[c]}
@@ -503,6 +511,24 @@ func revertedFixTest(id string) []map[string]any {
 			if o, err := exec.Command("rsync", "-a", "--exclude", ".git", "--exclude", ".tmp", repoDir()+"/", repoCopy+"/").CombinedOutput(); err != nil {
 				rec["result"] = "error copying tree: " + string(o)
 				return
+			}
+			for i, ac := range also[c] {
+				ad, err := exec.Command("git", "-C", repoDir(), "show", "--format=", ac).Output()
+				if err != nil || len(ad) == 0 {
+					rec["result"] = "skipped: commit " + ac + " not available"
+					return
+				}
+				apf := filepath.Join(scratch, fmt.Sprintf("also%d.diff", i))
+				_ = os.WriteFile(apf, ad, 0o644)
+				pc := exec.Command("patch", "-p1", "-R", "--no-backup-if-mismatch", "-s", "-i", apf)
+				pc.Dir = repoCopy
+				if o, err := pc.CombinedOutput(); err != nil {
+					rec["result"] = "stale: " + ac + " can no longer be reverted mechanically (" + strings.TrimSpace(strings.Split(string(o), "\n")[0]) + ")"
+					return
+				}
+			}
+			if len(also[c]) > 0 {
+				rec["also_reverted"] = also[c]
 			}
 			pf := filepath.Join(scratch, "fix.diff")
 			_ = os.WriteFile(pf, diff, 0o644)
